@@ -319,9 +319,22 @@ fn cli_roundtrip(bin: &std::path::Path, case: &Case, text: &str, c1: &Components
     if case.lm {
         args.push("--load_matching".into());
     }
-    let (oc, of) = (dir.join("oc.csv"), dir.join("of.csv"));
+    let h = crate::spec::fnv(text.as_bytes());
+    // saving in place: --oc names the components file that was read (same spelling, or through `./`)
+    let in_place = h % 5 == 1;
+    let oc = if !in_place {
+        dir.join("oc.csv")
+    } else if h % 2 == 0 {
+        cpath.clone()
+    } else {
+        dir.join(".").join("c.csv")
+    };
+    let of = dir.join("of.csv");
+    if in_place {
+        t.count("cli_saves_components_in_place");
+    }
     // the files may exist already with longer content (names reused between runs): saving replaces them
-    if crate::spec::fnv(text.as_bytes()) % 2 == 0 {
+    if h % 2 == 0 && !in_place {
         let filler = "9, CONSUMO, CAL, GASNATURAL, 1.00, 2.00 # resto de un archivo anterior\n".repeat((text.len() * 4 + (1 << 18)) / 64);
         let _ = std::fs::write(&oc, &filler);
         let _ = std::fs::write(&of, "GASNATURAL, RED, SUMINISTRO, A, 9.000, 9.000, 9.000 # resto de un archivo anterior\n".repeat(4000));
